@@ -66,6 +66,6 @@ pub fn x_is_one_of2(s: &str, a: &str, b: &str) -> (r: bool)
 
 /// `write!(w, "{}", d).unwrap()` on a String: appends the text (fmt::Write for String never fails)
 #[verifier::external_body]
-pub fn x_write_display(w: &mut String, d: &str)
+pub fn x_push_display(w: &mut String, d: &str)
     ensures final(w)@ == old(w)@ + d@
 { use std::fmt::Write; write!(w, "{}", d).unwrap() }
